@@ -34,6 +34,71 @@ type entry struct {
 	Text string `json:"text"`
 }
 
+// fnInfo: what a function calls (simple names) and which struct fields it assigns directly
+// (`x.f = ...`, `x.f[k] = ...`, `x.f++`, `delete(x.f, k)`, `T{f: ...}`).
+type fnInfo struct {
+	key, dir, name string
+	calls          map[string]bool
+	writes         map[string]bool
+}
+
+func fieldOf(e ast.Expr) string {
+	for {
+		switch x := e.(type) {
+		case *ast.IndexExpr:
+			e = x.X
+		case *ast.StarExpr:
+			e = x.X
+		case *ast.ParenExpr:
+			e = x.X
+		case *ast.SelectorExpr:
+			return x.Sel.Name
+		default:
+			return ""
+		}
+	}
+}
+
+func infoOf(fd *ast.FuncDecl, key, dir, name string) *fnInfo {
+	fi := &fnInfo{key: key, dir: dir, name: name, calls: map[string]bool{}, writes: map[string]bool{}}
+	ast.Inspect(fd, func(n ast.Node) bool {
+		switch x := n.(type) {
+		case *ast.AssignStmt:
+			for _, l := range x.Lhs {
+				if f := fieldOf(l); f != "" {
+					fi.writes[f] = true
+				}
+			}
+		case *ast.IncDecStmt:
+			if f := fieldOf(x.X); f != "" {
+				fi.writes[f] = true
+			}
+		case *ast.CompositeLit:
+			for _, el := range x.Elts {
+				if kv, ok := el.(*ast.KeyValueExpr); ok {
+					if id, ok := kv.Key.(*ast.Ident); ok {
+						fi.writes[id.Name] = true
+					}
+				}
+			}
+		case *ast.CallExpr:
+			switch f := x.Fun.(type) {
+			case *ast.Ident:
+				fi.calls[f.Name] = true
+				if f.Name == "delete" && len(x.Args) > 0 {
+					if fl := fieldOf(x.Args[0]); fl != "" {
+						fi.writes[fl] = true
+					}
+				}
+			case *ast.SelectorExpr:
+				fi.calls[f.Sel.Name] = true
+			}
+		}
+		return true
+	})
+	return fi
+}
+
 func isLogging(e ast.Expr) bool {
 	for {
 		switch x := e.(type) {
@@ -100,6 +165,7 @@ func main() {
 	}
 	repo := os.Args[1]
 	out := map[string]entry{}
+	infos := []*fnInfo{}
 	root := filepath.Join(repo, "src")
 	filepath.Walk(root, func(path string, info os.FileInfo, err error) error {
 		if err != nil || info.IsDir() || !strings.HasSuffix(path, ".go") || strings.HasSuffix(path, "_test.go") {
@@ -137,6 +203,7 @@ func main() {
 				name = r + "." + name
 			}
 			key := rel + ":" + name
+			infos = append(infos, infoOf(fd, key, filepath.Dir(rel), fd.Name.Name))
 			lines := []string{}
 			for _, l := range strings.Split(b.String(), "\n") {
 				if strings.TrimSpace(l) != "" {
@@ -152,6 +219,7 @@ func main() {
 		}
 		return nil
 	})
+	writerSets(infos, out)
 	keys := make([]string, 0, len(out))
 	for k := range out {
 		keys = append(keys, k)
@@ -174,5 +242,55 @@ func main() {
 	if err := os.WriteFile(os.Args[2], b.Bytes(), 0644); err != nil {
 		fmt.Fprintln(os.Stderr, err)
 		os.Exit(3)
+	}
+}
+
+// writerSets adds, for every struct field assigned somewhere, the entry
+// "writers:<package dir>:<field>": the functions that assign the field directly (distance 0) and
+// the functions that reach one of them through at most three calls (calls resolved by simple name,
+// across the repository), each with its distance. A new path by which a field can be written —
+// e.g. a handler that starts calling a setter — changes the entry although no mirrored function
+// changed.
+func writerSets(infos []*fnInfo, out map[string]entry) {
+	callers := map[string][]*fnInfo{} // simple name -> functions calling it
+	for _, fi := range infos {
+		for c := range fi.calls {
+			callers[c] = append(callers[c], fi)
+		}
+	}
+	type wk struct{ dir, field string }
+	direct := map[wk][]*fnInfo{}
+	for _, fi := range infos {
+		for f := range fi.writes {
+			direct[wk{fi.dir, f}] = append(direct[wk{fi.dir, f}], fi)
+		}
+	}
+	for k, ws := range direct {
+		dist := map[string]int{}
+		frontier := []*fnInfo{}
+		for _, w := range ws {
+			dist[w.key] = 0
+			frontier = append(frontier, w)
+		}
+		for d := 1; d <= 3; d++ {
+			next := []*fnInfo{}
+			for _, f := range frontier {
+				for _, c := range callers[f.name] {
+					if _, seen := dist[c.key]; !seen {
+						dist[c.key] = d
+						next = append(next, c)
+					}
+				}
+			}
+			frontier = next
+		}
+		lines := []string{}
+		for fk, d := range dist {
+			lines = append(lines, fmt.Sprintf("%d %s", d, fk))
+		}
+		sort.Strings(lines)
+		txt := strings.Join(lines, "\n")
+		h := sha256.Sum256([]byte(txt))
+		out["writers:"+k.dir+":"+k.field] = entry{Sha: hex.EncodeToString(h[:]), Text: txt}
 	}
 }
